@@ -341,6 +341,16 @@ def gen_c15(rnd, n, thorough=False):
     for rem in (0, 1, 0):
         ll.append('clisum base=s item=i1 src=*.wsp from=0 until=0 archive=-1 header=1 remote=%d' % rem)
     cases.append({'id': 'c15-manydamaged', 'lines': ll, 'tags': {'ops': {'rawfile': nf, 'clisum': 3}, 'kind': 'item_of_damaged_files'}})
+    # copy and sum-copy whose source AND existing destination are damaged (two rejections in one call: which one is
+    # reported is not compared): an error is returned -- no panic
+    good = image_py(2, 0x3f000000, [(1, 4), (2, 4)], {})
+    ll = []
+    for nm in ('s/i1/a.wsp', 'd/a.wsp', 'e/i1/sum.wsp'):
+        ll.append('rawfile %s %s' % (nm, hx(rnd.pick([good[:16], good[:30], be32(9) + good[4:], good[:len(good) - 5], bytes(len(good))]))))
+    ll += ["clicopy src=s:i1/a.wsp dest=d:a.wsp from=0 until=0 archive=-1 copynan=0 m=2 x=3f000000 layout=2,1,4,2,4 nostatus=1",
+           "clisumcopy base=s item=i1 src=*.wsp destbase=e dest=sum.wsp from=0 until=0 archive=-1 m=2 x=3f000000 layout=2,1,4,2,4 nostatus=1",
+           "clicopy src=s:i1/a.wsp dest=d:a.wsp from=0 until=0 archive=-1 copynan=1 m=2 x=3f000000 layout=2,1,4,2,4 nostatus=1 remote=1"]
+    cases.append({'id': 'c15-bothdamaged', 'lines': ll, 'tags': {'ops': {'rawfile': 3, 'clicopy': 2, 'clisumcopy': 1}, 'kind': 'source_and_destination_damaged'}})
     # counts whose size in bytes wraps 64 (or 32, 63) bits, with nothing / a little / a point behind them
     lines = []
     wraps = [2 ** 62, 2 ** 62 + 1, 2 ** 63, 2 ** 63 + 2 ** 62, 3 * 2 ** 62 + 1, (2 ** 64 + 8) // 12, (2 ** 64 + 12) // 12, (2 ** 65 + 4) // 12 + 1, (2 ** 64) // 12 + 1,
